@@ -4,12 +4,18 @@
 (* xtl::cmp_* templates against IntCmp.tla.                                 *)
 (*                                                                          *)
 (* Table line (ndjson, env TRACE):                                          *)
-(*  {"op":"P","T":t,"U":u,"enc":"int"|"limbs","ce":0|1,"c":[[a,b,mask],..]} *)
-(* T, U: type ids of the two operands; a, b: the operand values as the      *)
+(*  {"op":"P","T":t,"U":u,"ts":[s,d],"us":[s,d],"enc":"int"|"limbs","ce":0|1,"c":[[a,b,mask],..]} *)
+(*  {"op":"R","T":t,"U":u,"ts":..,"us":..,"side":0|1,"c":[[a,[[lo,hi,mask],..]],..]}                 *)
+(* T, U: type ids of the two operands (0..7 the fixed-width types, above: char, wchar_t, char16_t,   *)
+(* char32_t, long long, unsigned long long, bool); ts, us: <<is_signed, digits>> of the two types as *)
+(* the compiler reports them; a, b: the operand values as the      *)
 (* harness read them back from variables of those types - a small integer   *)
 (* (enc "int") or [neg, l0, l1, l2, l3] (enc "limbs"); mask: the six        *)
 (* returned booleans (eq=1 ne=2 lt=4 gt=8 le=16 ge=32); ce = 1 when the     *)
 (* calls were evaluated in constant expressions by the compiler.            *)
+(* An "R" case is a whole sweep: a against EVERY value b of U (at most 16 bits wide), the answers    *)
+(* run-length encoded by the harness; the runs must tile U's range and every b of a run must have    *)
+(* the run's mask (side 0: cmp_*(a, b), side 1: cmp_*(b, a)).                                        *)
 (* Every case is one TLC state <<l, j>>; see Base64Check.tla for the scheme.*)
 (***************************************************************************)
 EXTENDS IntCmp, Json, IOUtils, TLC
@@ -21,12 +27,30 @@ Table == ndJsonDeserialize(IOEnv.TRACE)
 Val(e, a) == IF e.enc = "int" THEN FromInt(a)
              ELSE [neg |-> a[1] = 1, mag |-> <<a[2], a[3], a[4], a[5]>>]
 
+DeclOK(e) == /\ e.T \in 0..7 => <<e.ts[1], e.ts[2]>> = SDOf(e.T)          \* the fixed-width types are what their names say
+             /\ e.U \in 0..7 => <<e.us[1], e.us[2]>> = SDOf(e.U)
 Verdict(e, c) ==
     LET x == Val(e, c[1])
         y == Val(e, c[2]) IN
-    IF ~(IsValue(x) /\ IsValue(y) /\ Representable(e.T, x) /\ Representable(e.U, y))
+    IF ~(DeclOK(e) /\ IsValue(x) /\ IsValue(y) /\ RepresentableSD(e.ts, x) /\ RepresentableSD(e.us, y))
       THEN [precondition |-> "operand not a value of its type"]
       ELSE [mask |-> Mask(x, y)]
+
+(* ---- sweeps *)
+SweepMask(e, a, b) == IF e.side = 0 THEN MaskInts(a, b) ELSE MaskInts(b, a)
+Tiles(e, runs) == /\ Len(runs) >= 1
+                  /\ runs[1][1] = LoSD(e.us) /\ runs[Len(runs)][2] = HiSD(e.us)
+                  /\ \A k \in 1..Len(runs) : runs[k][1] <= runs[k][2]
+                  /\ \A k \in 1..(Len(runs) - 1) : runs[k + 1][1] = runs[k][2] + 1
+SweepOK(e, c) == /\ Tiles(e, c[2])
+                 /\ \A k \in 1..Len(c[2]) : \A b \in c[2][k][1]..c[2][k][2] : SweepMask(e, c[1], b) = c[2][k][3]
+SweepVerdict(e, c) ==
+    IF ~(DeclOK(e) /\ e.us[2] + e.us[1] <= 16 /\ RepresentableSD(e.ts, FromInt(c[1])))
+      THEN [precondition |-> "operand not a value of its type, or sweep type wider than 16 bits"]
+    ELSE IF ~Tiles(e, c[2]) THEN [runs_must_tile |-> <<LoSD(e.us), HiSD(e.us)>>]
+    ELSE LET bad == CHOOSE k \in 1..Len(c[2]) : \E b \in c[2][k][1]..c[2][k][2] : SweepMask(e, c[1], b) # c[2][k][3]
+             b0  == CHOOSE b \in c[2][bad][1]..c[2][bad][2] : SweepMask(e, c[1], b) # c[2][bad][3]
+         IN [a |-> c[1], b |-> b0, mask |-> SweepMask(e, c[1], b0)]
 
 TInit == l = 1 /\ j = 1
 
@@ -38,6 +62,10 @@ TNext ==
                   IF "mask" \in DOMAIN v /\ e.c[j][3] = v.mask
                     THEN TRUE
                     ELSE PrintT(<<"REJECT", l, j, v>>) /\ FALSE
+             ELSE IF e.op = "R"
+             THEN IF DeclOK(e) /\ e.us[2] + e.us[1] <= 16 /\ RepresentableSD(e.ts, FromInt(e.c[j][1])) /\ SweepOK(e, e.c[j])
+                    THEN TRUE
+                    ELSE PrintT(<<"REJECT", l, j, SweepVerdict(e, e.c[j])>>) /\ FALSE
              ELSE PrintT(<<"REJECT", l, j, [no_such_op |-> e.op]>>) /\ FALSE
         /\ IF j < Len(e.c) THEN l' = l /\ j' = j + 1
                            ELSE l' = l + 1 /\ j' = 1
